@@ -70,3 +70,26 @@ func Yield(point string, key any) {
 
 // PtrID marks a value that the sink must identify by pointer identity.
 type PtrID struct{ P any }
+
+// LockSinkFunc receives the calls of the instrumented mutexes of internal/sync:
+// op "req" (before a call that may block), "acq" (lock held), "rel" (about to release);
+// mode "w" or "r"; m the mutex; pc the caller's program counter.
+type LockSinkFunc func(op, mode string, m any, pc uintptr)
+
+var lockSink atomic.Pointer[LockSinkFunc]
+
+func SetLockSink(f LockSinkFunc) {
+	if f == nil {
+		lockSink.Store(nil)
+		return
+	}
+	lockSink.Store(&f)
+}
+
+func LockSink() *LockSinkFunc { return lockSink.Load() }
+
+func Lock(op, mode string, m any, pc uintptr) {
+	if f := lockSink.Load(); f != nil {
+		(*f)(op, mode, m, pc)
+	}
+}
